@@ -14,8 +14,9 @@ C04 model (core Lean only, executable).
    `pgQuote` (format.go `formatValue`, `case string`), `decode` (translator.go
    `decodeCypherStringLiteral`), `encode` (cypher/model.go `NewStringLiteral`), `unescapeKey`
    (property_key.go `UnescapePropertyKeyName`), `escapeKeyBt` (the back-tick branch of
-   `EscapePropertyKeyName`), `emitIdent` (format.go `case pgsql.Identifier: builder.Write(…)` — verbatim),
-   and the repaired emitter `emitIdentFixed`.
+   `EscapePropertyKeyName`), `emitIdent` (format.go `formatIdentifier`: a back-ticked symbol is unescaped and
+   written as `"…"` with `""` doubling, every other symbol verbatim) and `emitIdentOld` (the verbatim emitter
+   the code had before that repair).
 -/
 namespace Dawgs.C04
 
@@ -338,9 +339,9 @@ def escDQ : Str → Str
 /-- the repaired identifier emitter: `"` + name with `"` doubled + `"` -/
 def qQuote (s : Str) : Str := '"' :: (escDQ s ++ ['"'])
 
-/-- format.go `case pgsql.Identifier: builder.Write(typedNextExpr)`: the symbol is written verbatim;
-the frontend stores `ctx.GetText()`, i.e. a back-ticked name keeps its back-ticks -/
-def emitIdent (rawSymbol : Str) : Str := rawSymbol
+/-- format.go before the repair, `case pgsql.Identifier: builder.Write(typedNextExpr)`: the symbol was written
+verbatim; the frontend stores `ctx.GetText()`, i.e. a back-ticked name keeps its back-ticks (finding F9) -/
+def emitIdentOld (rawSymbol : Str) : Str := rawSymbol
 
 inductive DecErr where
   | tooShort
@@ -428,6 +429,24 @@ def dblBt : Str → Str
 
 /-- the back-tick branch of `EscapePropertyKeyName` -/
 def escapeKeyBt (name : Str) : Str := '`' :: (dblBt name ++ ['`'])
+
+/-- format.go `formatIdentifier`:
+`if len(name) < 2 || name[0] != '`' || name[len(name)-1] != '`' { return name }`, otherwise
+`"\"" + strings.ReplaceAll(strings.ReplaceAll(name[1:len(name)-1], "``", "`"), "\"", "\"\"") + "\""` -/
+def emitIdent (sym : Str) : Str :=
+  match sym with
+  | [] => sym
+  | q :: rest =>
+    if utf8Len sym ≥ 2 ∧ q = '`' ∧ sym.getLast? = some '`' then qQuote (unBt rest.dropLast) else sym
+
+/-- a name as Cypher accepts it without back-ticks (oC_SymbolicName, UnescapedSymbolicName): ID_Start / Pc, then
+ID_Continue / Sc. In ASCII that is `[A-Za-z_][A-Za-z0-9_$]*`; every non-ASCII character of those classes is an
+identifier character for PostgreSQL as well (`ident_start`/`ident_cont` contain `\200-\377`). The predicate is the
+PostgreSQL side, which contains the Cypher side. -/
+def cypherBare (name : Str) : Bool :=
+  match name with
+  | [] => false
+  | c :: cs => isIdentStart c && cs.all isIdentCont
 
 /-- expression.go `rewriteStringWildCardLiteral`: `strings.NewReplacer("\\", "\\\\", "%", "\\%", "_", "\\_")` -/
 def likeEsc : Str → Str
